@@ -19,6 +19,7 @@ EXPLANATION = (
     "exactly when a statement is added, and is what a prefix label is bound to. R6 (TAB): mnemonic, trap, vector, directive "
     "and escape tables. R7: the compared identifier is lower-cased; literal prefixes accept both cases. R8: .fill/.blkw/"
     ".stringz expansion. R9: both consumers of the AIR emit origin then every statement in order with the same default origin."
+    ' R7 also: a register token is r/R plus exactly one digit 0-7. R8 is decided on emission summaries (push, counted loop, repeat/take, chars/map) with the .blkw count being the unsigned reinterpretation of the literal.'
 )
 NOT_DECIDED = ("equality of entire images for all programs (follows on paper from R1-R9 by induction over statements); "
                "insensitivity to re-layout beyond the lower-casing, separator and comment rules of the lexer")
